@@ -141,15 +141,15 @@ impl SpanBuilder {
     /// This consumes all operations and decorators in the builder, but does not touch the
     /// operations in the epilogue of the builder.
     pub fn extract_span_into(&mut self, target: &mut Vec<CodeBlock>) {
+        if self.ops.is_empty() && !self.decorators.is_empty() {
+            // a body (or a part of it between two control blocks) made up of decorators only, e.g.
+            // `if.true emit.1 end`: the decorators are attached to a NOOP
+            self.ops.push(Operation::Noop);
+        }
         if !self.ops.is_empty() {
             let ops = self.ops.drain(..).collect();
             let decorators = self.decorators.drain(..).collect();
             target.push(CodeBlock::new_span_with_decorators(ops, decorators));
-        } else if !self.decorators.is_empty() {
-            // this is a bug in the assembler. we shouldn't have decorators added without their
-            // associated operations
-            // TODO: change this to an error or allow decorators in empty span blocks
-            unreachable!("decorators in an empty SPAN block")
         }
     }
 
